@@ -32,7 +32,7 @@ Theorem ramp_chain_world (n s c : nat -> K) (d : nat -> nat -> K) (A : list K) (
   (forall J, length J = D -> V J -> in_box (ishape im) J = true /\
      ival im J = dot A (gen_pts D GRID WORLD (vtab D n) (vtab D s) (vtab D c) (tab D D d) (map of_Z J)) + b) ->
   lock D (vtab D n) (vtab D s) (vtab D c) (tab D D d) N' S' C' l ->
-  forall J, length J = D -> valid_chain K floorK l im V J ->
+  forall J, length J = D -> valid_chain floorK l im V J ->
   ival (run_steps floorK l im) J = dot A (gen_pts D GRID WORLD N' S' C' (tab D D d) (map of_Z J)) + b.
 Proof.
   intros HA Hs Hl Hramp Hlock J HJ HV.
